@@ -4,7 +4,7 @@
    dup_identifier_in_transaction); be_holds P be = the backend maps the identifier of every named node of P to that
    node's own document.  Text level (json text, expression strings, float repr) is outside the model. *)
 From Coq Require Import String List ZArith QArith Bool.
-Require Import QV.C10.Model QV.C10.Spec QV.C10.Iface QV.C10.Proofs QV.C10.Proofs_store QV.C10.Proofs_share QV.C10.Proofs_iface QV.C10.Proofs_guard QV.C10.Witness.
+Require Import QV.C10.Model QV.C10.Spec QV.C10.Iface QV.C10.Hist QV.C10.SpecHist QV.C10.Proofs QV.C10.Proofs_store QV.C10.Proofs_share QV.C10.Proofs_iface QV.C10.Proofs_guard QV.C10.Proofs_hist QV.C10.Witness QV.C10.Witness_hist.
 Import ListNotations.
 Open Scope string_scope.
 
@@ -140,3 +140,67 @@ Theorem C10_storage_refuted_dup_identifier : exists P s' p' st', wf P = true /\
   store (empty_s []) P = Ok s' /\ load 8 (s_be s') fresh_l "s" = Ok (p', st') /\ erase p' <> erase P.
 Proof. exact refuted_dup_identifier. Qed.
 Print Assumptions C10_storage_refuted_dup_identifier.
+
+(* ---- round 3: histories with overwrite and deletion (Hist.v: store_as / overwrite_as / delete, hop, hrun2) ------------- *)
+(* the old store is the new one under the template's own identifier *)
+Theorem C10_store_is_store_as : forall s p i, pt_id p = Some i -> store s p = store_as s i p.
+Proof. exact store_as_store. Qed.
+Print Assumptions C10_store_is_store_as.
+
+(* one overwrite (P encoded again) from a storage state whose cached objects belong to the universe U of the history's
+   objects (one identifier one object, one Python identity one object) and whose backend documents are theirs: if the
+   named descendants of P that are still cached are completely in the backend (cached_complete: the encoder skips them),
+   then afterwards every named node of P has its own document in the backend — also the ones whose documents had been
+   deleted *)
+Theorem C10_overwrite_restores : forall (U : pt -> Prop) s i P s',
+  oid_coherent U -> gconsistent U -> (forall x, In x (nodes P) -> U x) ->
+  (forall j q, In (j, q) (s_temp s) -> forall x, In x (nodes q) -> U x) -> agrees U (s_be s) ->
+  pt_id P = Some i -> cached_complete s P -> overwrite_as s i P = Ok s' -> be_holds P (s_be s').
+Proof. intros U s i P s' O G HP TL A. apply (overwrite_holds U s i P s' O G HP (conj TL A)). Qed.
+Print Assumptions C10_overwrite_restores.
+
+(* histories of store / overwrite / delete through two PulseStorage instances over a backend be0 whose documents agree
+   with the history's objects; no identifier clash and no mutation in the whole history (gconsistent, oid_coherent on
+   live2 ops), keys = own identifiers.  An operation that WRITES P (overwrite, or a store not answered from the temporary
+   storage) and succeeds at its turn in a state where P's still-cached descendants are complete: if no identifier of a
+   named node of P is deleted afterwards, P is completely in the backend at the END of the history and a fresh
+   PulseStorage loads it back equal.  Deletions BEFORE the write (the seed C10-4 history) and deletions of other
+   identifiers at any time are allowed. *)
+Theorem C10_history_ops : forall be0 ops pre o post w i P s',
+  let U := live2 ops in
+  oid_coherent U -> gconsistent U -> agrees U be0 -> Forall keyed ops ->
+  ops = (pre ++ o :: post)%list -> wf P = true -> pt_id P = Some i ->
+  let s1 := hsel (fst (hrun2 (empty_h be0) pre)) w in
+  writes s1 o w i P -> sop s1 o = Ok s' -> cached_complete s1 P ->
+  (forall n k, In n (nodes P) -> pt_id n = Some k -> ~ deletes post k) ->
+  let be := hbe (fst (hrun2 (empty_h be0) ops)) in
+  be_holds P be /\ exists p' st', load (length (nodes P)) be fresh_l i = Ok (p', st') /\ erase p' = erase P.
+Proof. exact history_ops. Qed.
+Print Assumptions C10_history_ops.
+
+(* non-vacuity, the first history of seed C10-4 in the model: store parent (named child x), delete x, overwrite the same
+   parent object: all three succeed, x is gone in between, the guard holds, x is back and the parent loads equal *)
+Theorem C10_history_example :
+  snd (hrun2 (empty_h []) hx_ops) = [Ok tt; Ok tt; Ok tt] /\
+  has_key "x" (hbe (fst (hrun2 (empty_h []) [HStore 0 "s" ex_P; HDel 0 "x"]))) = false /\
+  cached_complete (hsel (fst (hrun2 (empty_h []) [HStore 0 "s" ex_P; HDel 0 "x"])) 0) ex_P /\
+  be_holds ex_P (hbe (fst (hrun2 (empty_h []) hx_ops))) /\
+  exists p' st', load 8 (hbe (fst (hrun2 (empty_h []) hx_ops))) fresh_l "s" = Ok (p', st') /\ erase p' = erase ex_P.
+Proof. exact hist_example. Qed.
+Print Assumptions C10_history_example.
+
+(* the guards are needed (faithful model; the implementation behaves the same, harness cases fixed:del_grandchild_over and
+   fixed:del_child_store_noop): a still-cached named child hides a deleted grandchild from overwrite; a store of the
+   cached object writes nothing *)
+Theorem C10_overwrite_refuted_stale_cache :
+  wf g_top = true /\ snd (hrun2 (empty_h []) g_ops) = [Ok tt; Ok tt; Ok tt] /\
+  has_key "x" (hbe (fst (hrun2 (empty_h []) g_ops))) = false /\
+  load 8 (hbe (fst (hrun2 (empty_h []) g_ops))) fresh_l "top" = Err EKey.
+Proof. exact stale_cache_refuted. Qed.
+Print Assumptions C10_overwrite_refuted_stale_cache.
+
+Theorem C10_store_refuted_noop :
+  snd (hrun2 (empty_h []) n_ops) = [Ok tt; Ok tt; Ok tt] /\
+  load 8 (hbe (fst (hrun2 (empty_h []) n_ops))) fresh_l "s" = Err EKey.
+Proof. exact noop_store_refuted. Qed.
+Print Assumptions C10_store_refuted_noop.
